@@ -61,8 +61,10 @@ Definition presult_hop (r : presult) : hop :=
 Definition hop_presult (h : hop) : presult :=
   match h with HDirect => PDirect | HFail => PFail | HProxy ty hp => PUrl (ptype_scheme ty) hp end.
 
+(* a host is a direct-domains host when the list matches its name as written or the name that is actually
+   contacted (its IDNA-mapped ASCII form) *)
 Definition direct_domain (cfg : config) (h : str) : bool :=
-  match c_direct cfg with Some m => m h | None => false end.
+  match c_direct cfg with Some m => m h || m (c_idna cfg h) | None => false end.
 Definition localhost_direct (cfg : config) (h : str) : bool :=
   str_eqb (c_lh_mode cfg) (b "direct") && c_is_localhost cfg h.
 
@@ -112,11 +114,13 @@ Definition spec_redirect (rules : list rule) (addr : str) : str :=
       end
   end.
 
-(* address the request is for: CONNECT authority as given; plain requests get the scheme's default port *)
-Definition spec_target_addr (t : target) : str :=
+(* address the request is for: the CONNECT authority exactly as given (the proxy dials it as is; a name that is
+   not ASCII does not resolve); for requests the proxy forwards itself the ASCII form of the host with the
+   scheme's default port *)
+Definition spec_target_addr (idna : str -> str) (t : target) : str :=
   match t_kind t with
   | Connect => t_urlhost t
-  | Plain => canonical_addr (t_scheme t) (t_urlhost t)
+  | Plain => canonical_addr idna (t_scheme t) (t_urlhost t)
   end.
 
 Definition spec_wire (ty : ptype) (t : target) : wire :=
@@ -134,26 +138,30 @@ Definition ptype_tls (ty : ptype) : bool := match ty with THttps => true | _ => 
    address (the client's authority for a CONNECT, host:port with the scheme's default port for a request the
    proxy forwards itself); an HTTP proxy relaying a plain request gets the request's host in the absolute URI;
    an origin gets it in the Host field; a direct tunnel is told nothing by the proxy *)
-Definition spec_named (h : hop) (t : target) : str :=
+Definition spec_named (idna puny : str -> str) (h : hop) (t : target) : str :=
   match h, t_kind t with
   | HFail, _ => []
   | HDirect, Connect => []
-  | HDirect, Plain => t_urlhost t
-  | HProxy _ _, Connect => t_urlhost t
-  | HProxy ty _, Plain => match spec_wire ty t with WAbs => t_urlhost t | _ => spec_target_addr t end
+  | HDirect, Plain => puny_hostport puny (t_urlhost t)
+  | HProxy TSocks5 _, Connect => t_urlhost t
+  | HProxy _ _, Connect => puny_hostport puny (t_urlhost t)
+  | HProxy ty _, Plain => match spec_wire ty t with
+                          | WAbs => puny_hostport puny (t_urlhost t)
+                          | _ => spec_target_addr idna t
+                          end
   end.
 
-Definition spec_route_hop (rules : list rule) (h : hop) (t : target) : outcome :=
+Definition spec_route_hop (idna puny : str -> str) (rules : list rule) (h : hop) (t : target) : outcome :=
   match h with
   | HFail => OFail
-  | HDirect => OSent (spec_redirect rules (spec_target_addr t))
+  | HDirect => OSent (spec_redirect rules (spec_target_addr idna t))
                      (match t_kind t with Plain => str_eqb (t_scheme t) (b "https") | Connect => false end) WDirect
-                     (spec_named h t)
-  | HProxy ty hp => OSent (spec_redirect rules hp) (ptype_tls ty) (spec_wire ty t) (spec_named h t)
+                     (spec_named idna puny h t)
+  | HProxy ty hp => OSent (spec_redirect rules hp) (ptype_tls ty) (spec_wire ty t) (spec_named idna puny h t)
   end.
 
 Definition spec_route (cfg : config) (rules : list rule) (t : target) : outcome :=
-  spec_route_hop rules (spec_hop cfg t) t.
+  spec_route_hop (c_idna cfg) (c_puny cfg) rules (spec_hop cfg t) t.
 
 (* the first hop as a party: address, whether TLS is spoken to it, and what it is used as
    (direct peer / HTTP proxy / SOCKS5 proxy) — what must agree between a plain request and a CONNECT *)
